@@ -138,6 +138,27 @@ CLAIMED = {
         'Trusted: TLC; generator/concretisation; the single-formula part is a '
         'metamorphic comparison of two paths of the library (no spec oracle).',
         'DESIGN.md 4/C08'),
+    'C09': (
+        'TLC model checking of Codec.tla (text-constant escaping over all '
+        'strings of two adversarial alphabets), Workbook.tla (Sem of the '
+        're-imported workbook) and ShuntingYard.tla RenderFix + replay: every '
+        'enumerated string and seeded workbooks through to_dict -> JSON -> '
+        'from_dict, second export, re-parse of exported formula text',
+        'Codec.tla models the export/import of text constants (what is '
+        'wrapped as ="...", how quotes are doubled, what import reads as '
+        'formula / error / blank placeholder); TLC checks RoundTripOK and '
+        'PlainUntouched for all 7381 strings up to length 4 over {= " # a A N '
+        '/ 1 +} and all strings up to length 6 over the letters of #EMPTY, '
+        'and every one of them is stored as a text cell of a real workbook, '
+        'exported, imported and compared (value and second export). Seeded '
+        'workbooks with every constant kind, names, array formulas and '
+        'cross-sheet/book references are exported, passed through json, '
+        're-imported: every cell must equal Sem(W) (also under supplied '
+        'inputs) and the second export must equal the first. The exported '
+        'text of every accepted token sequence of C01 is parsed again and '
+        'must give the same exported text.',
+        'Trusted: TLC; the generator; openpyxl for writing the source files.',
+        'DESIGN.md 4/C09'),
     'C18': (
         'TLC model checking of ShuntingYard.tla/Grammar.tla (every token '
         'sequence ends acc or rej; acc only if the grammar accepts) and '
